@@ -89,6 +89,19 @@ SOURCES = [
     ('variables', '@= v [ x01 ] @v', bytes([2, 1, C['OP_WRITE_CACHE'], 1]) + b'v' + bytes([1, C['OP_READ_CACHE'], 1]) + b'v'),
     ('comptime', 'push ~ { true }', bytes([2, C['OP_TRUE']])),
 ]
+NBASE = len(SOURCES)
+# same construct names with different bodies / arguments: compiling one must not colour how a later one compiles
+_BODIES = [('push a', lambda a: bytes([2, a])), ('push a push a', lambda a: bytes([2, a, 2, a])),
+           ('push x01 push a not', lambda a: bytes([2, 1, 2, a, C['OP_NOT']]))]
+for _mn in ('m', 'n'):
+    for _bi, (_bs, _bf) in enumerate(_BODIES):
+        for _arg in (5, 6):
+            SOURCES.append(('macro2-%s-%d-%d' % (_mn, _bi, _arg), '!= %s [ a ] { %s } !%s [ x%02x ]' % (_mn, _bs, _mn, _arg), _bf(_arg)))
+SOURCES.append(('macro2-two-params', '!= m [ a b ] { push b push a } !m [ x05 x06 ]', bytes([2, 6, 2, 5])))
+SOURCES.append(('macro2-twice', '!= m [ a ] { push a } !m [ x05 ] !m [ x06 ]', bytes([2, 5, 2, 6])))
+SOURCES.append(('variables2', '@= v [ x02 ] @v', bytes([2, 2, C['OP_WRITE_CACHE'], 1]) + b'v' + bytes([1, C['OP_READ_CACHE'], 1]) + b'v'))
+SOURCES.append(('comptime2', 'push ~ { false }', bytes([2, C['OP_FALSE']])))
+SOURCES.append(('comptime3', 'push ~ { true true }', bytes([3, 2, C['OP_TRUE'], C['OP_TRUE']])))
 ENTRY = ['compile_script', 'Script.from_src', 'assemble', 'parse_comptime+assemble']
 
 
@@ -332,15 +345,16 @@ def alphabets():
                                       [['resetp', si], ['run', si * 2]])
     A['contracts+interfaces'] = ([['addc', 0], ['addc', 1], ['remc', 0], ['remc', 1], ['addi', 0], ['remi', 0], ['addi', 1],
                                   ['remi', 1], ['run', 1]])
-    A['compile+aliases'] = ([['compile', si, ei] for si in range(len(SOURCES)) for ei in (0, 2, 3)] + [['compile', 1, 1], ['alias', 0], ['alias', 1]])
+    A['compile+aliases'] = ([['compile', si, ei] for si in range(NBASE) for ei in (0, 2, 3)] + [['compile', 1, 1], ['alias', 0], ['alias', 1]])
+    A['compile-purity'] = [['compile', si, ei] for si in range(NBASE, len(SOURCES)) for ei in (0, 1)] + [['compile', 1, 0]]
     return A
 
 
 def task_enumerate(ctx):
     A = alphabets()
-    maxlen = {'plugins:' + SCOPES[0]: 5, 'plugins:' + SCOPES[1]: 5, 'contracts+interfaces': 5, 'compile+aliases': 3}
+    maxlen = {'plugins:' + SCOPES[0]: 5, 'plugins:' + SCOPES[1]: 5, 'contracts+interfaces': 5, 'compile+aliases': 3, 'compile-purity': 2}
     if ctx.thorough():
-        maxlen = {'plugins:' + SCOPES[0]: 6, 'plugins:' + SCOPES[1]: 6, 'contracts+interfaces': 5, 'compile+aliases': 4}
+        maxlen = {'plugins:' + SCOPES[0]: 6, 'plugins:' + SCOPES[1]: 6, 'contracts+interfaces': 5, 'compile+aliases': 4, 'compile-purity': 3}
     idx = 0
     for name, alpha in A.items():
         n = 0
@@ -429,14 +443,5 @@ def task_machines(ctx):
         suppress_health_check=list(HealthCheck), report_multiple_bugs=False, verbosity=hypothesis.Verbosity.quiet))
 
 
-def _selfcheck():
-    """expected bytes of the fixed sources vs the reference assembler / pristine compiler (once per worker)"""
-    env.restore_registries(env.PRISTINE)
-    _reset_leaked_defaults()
-    for name, src, exp in SOURCES:
-        if isinstance(exp, bytes):
-            assert P.compile_script(src) == exp, (name, P.compile_script(src).hex(), exp.hex())
-
-
-_selfcheck()
+# (the expected bytes of the fixed sources are confirmed by the length-1 words of the enumeration: one compile from the pristine state)
 TASKS = {'enumerate': (task_enumerate, 16, 16), 'machines': (task_machines, 8, 16)}
